@@ -11,7 +11,7 @@ import ast
 import itertools
 
 from sa.index import AnalysisError, unparse, walk_no_nested, call_name, dotted
-from sa.absint import Interp, Obj, Residual
+from sa.absint import Interp, Obj, Residual, txt
 from . import common as K
 from . import next_model as NM
 from . import funcs_model as FM
@@ -64,8 +64,54 @@ def run(idx, rep, tier):
     rep.stats["exhaustive"] = True
 
 
+def factory_table(idx, rep, rid):
+    """DataFileReader.__new__ interpreted: which reader class each (path, filetype) gets, and that the caller's delimiter and quotechar
+    reach its constructor unchanged"""
+    new = idx.method("DataFileReader", "__new__")
+    rep.analysed(new)
+    cases = [
+        ("d.csv", None, {}, "CsvDataReader", "d.csv", None), ("d.csv", "csv", {}, "CsvDataReader", "d.csv", None),
+        ("d.xlsx", None, {}, "XlsxDataReader", "d.xlsx", None), ("d.xlsx#Sheet2", None, {}, "XlsxDataReader", "d.xlsx", "Sheet2"),
+        ("d.dat", "xlsx", {}, "XlsxDataReader", "d.dat", None), ("s3://b/k.csv", None, {}, "S3DataReader", "s3://b/k.csv", None),
+        ("frame", None, {"frame": Obj("DF")}, "PandasDataReader", "frame", None),
+    ]
+    bad = None
+    for path, ft, data, wcls, wpath, wsheet in cases:
+        made = []
+
+        def ctor(name):
+            def h(i, c, r, a, k):
+                made.append((name, list(a), dict(k)))
+                return Obj("READER")
+            return h
+
+        handlers = {n: ctor(n) for n in ("CsvDataReader", "XlsxDataReader", "S3DataReader", "PandasDataReader")}
+        handlers["importlib.import_module"] = lambda i, c, r, a, k: Obj("MOD")
+        store = {"DataFileReader.DATA": dict(data), "DF.__class__.__name__": "DataFrame", "DF.__class__": Obj("DFCLS"), "DFCLS.__name__": "DataFrame",
+                 "MOD.PandasDataReader": Residual("PandasDataReader"), "MOD.S3DataReader": Residual("S3DataReader")}
+        it = Interp(idx, types={}, handlers=handlers)
+        ps = it.run_all(new, args={"cls": Residual("DataFileReader"), "path": path, "filetype": ft, "delimiter": Residual("delimiter"), "quotechar": Residual("quotechar")},
+                        store=store, selfkey="DataFileReader")
+        if len(ps) != 1 or len(made) != 1 or ps[0].result != ("return", Obj("READER")):
+            bad = bad or f"DataFileReader({path!r}, filetype={ft!r}): {len(ps)} paths, constructions {made}, result {ps[0].result if ps else None}"
+            continue
+        name, a, k = made[0]
+        allkw = dict(k)
+        if a:
+            allkw["path"] = a[0]
+        sheet = allkw.get("sheet")
+        okk = (name == wcls and allkw.get("path") == wpath and allkw.get("delimiter") == Residual("delimiter") and allkw.get("quotechar") == Residual("quotechar")
+               and (wcls != "XlsxDataReader" or sheet == wsheet))
+        if not okk:
+            bad = bad or (f"DataFileReader({path!r}, filetype={ft!r}) constructs {name}({', '.join(map(txt, a))}, {', '.join(k2 + '=' + txt(v) for k2, v in k.items())}); "
+                          f"documented {wcls}({wpath!r}, sheet={wsheet!r}, delimiter=delimiter, quotechar=quotechar) (both forwarded: a dropped quotechar reads quoted delimiters as cell breaks)")
+    rep.check(bad is None, rid, f"{new.file}::DataFileReader.__new__ reader DataFileReader", bad or f"{len(cases)} (path, filetype) cases", K.where(new, new.node))
+    return new
+
+
 def r1(idx, rep):
     n = 0
+    new = factory_table(idx, rep, "R1")
     for fi in idx.all_funcs():
         if fi.file.startswith("csvpath/cli/") or fi.file.startswith("csvpath/managers/ol/"):
             continue
@@ -75,6 +121,8 @@ def r1(idx, rep):
             nm = call_name(c)
             if nm not in ("DataFileReader", "get_reader", "CsvDataReader", "XlsxDataReader", "get_named_file_reader") and not (nm in ("class_",) and fi.qual == "DataFileReader.__new__"):
                 continue
+            if fi.file == new.file and (fi.cls is None or fi.qual == "DataFileReader.__new__"):
+                continue  # the factory and its module-level helpers: decided by the interpreted table below
             own = K.owner_of(idx, fi, set(READER_SITES))
             exempt = K.owner_of(idx, fi, set(EXEMPT_SITES))
             if nm == "get_named_file_reader" and own is None:
@@ -91,7 +139,7 @@ def r1(idx, rep):
             want = READER_SITES[own]
             rep.check(kw.get("delimiter") == want[0] and kw.get("quotechar") == want[1], "R1", key,
                       f"`{unparse(c)[:120]}` passes delimiter={kw.get('delimiter')}, quotechar={kw.get('quotechar')}; expected {want[0]}, {want[1]} (both: a dropped quotechar reads quoted delimiters as cell breaks)", K.where(fi, c))
-    rep.floor("R1", 7, "reader constructions")
+    rep.floor("R1", 4, "reader constructions")
     # CsvDataReader: stores both and passes both to csv.reader
     ci = idx.cls("CsvDataReader")
     init = ci.methods["__init__"]
@@ -99,20 +147,39 @@ def r1(idx, rep):
     rep.check(st.get("_delimiter") == "delimiter if delimiter is not None else ','" and st.get("_quotechar") == "quotechar if quotechar is not None else '\"'", "R1",
               f"{ci.file}::CsvDataReader.__init__ keeps the dialect", f"{st.get('_delimiter')} / {st.get('_quotechar')}", K.where(init, init.node))
     nx = ci.methods["next"]
-    cr = [c for c in walk_no_nested(nx.node) if isinstance(c, ast.Call) and call_name(c) == "reader"]
-    kw = K.kw_values(idx, nx, cr[0]) if len(cr) == 1 else {}
-    rep.check(kw == {"delimiter": "self._delimiter", "quotechar": "self._quotechar"}, "R1", f"{ci.file}::CsvDataReader.next csv.reader dialect", f"{kw}", K.where(nx, nx.node))
-    # csv.reader reads the opened file itself (no filtering/rewriting layer between the bytes and the parser)
-    withs = [w for w in walk_no_nested(nx.node) if isinstance(w, ast.With)]
-    fvar = unparse(withs[0].items[0].optional_vars) if withs and withs[0].items[0].optional_vars is not None else None
-    opened = unparse(withs[0].items[0].context_expr.args[0]) if withs and isinstance(withs[0].items[0].context_expr, ast.Call) and withs[0].items[0].context_expr.args else None
-    src0 = unparse(cr[0].args[0]) if len(cr) == 1 and cr[0].args else None
-    rep.check(src0 is not None and src0 == fvar and opened == "self._path", "R1", f"{ci.file}::CsvDataReader.next parses the file itself",
-              f"csv.reader reads `{src0}` (file variable `{fvar}`, opened `{opened}`): a layer between the file and the parser can alter cell text", K.where(nx, nx.node))
-    # the reader yields csv.reader's rows unchanged
-    ys = [unparse(n.value) for n in walk_no_nested(nx.node) if isinstance(n, ast.Yield)]
-    fors = [unparse(n.target) for n in walk_no_nested(nx.node) if isinstance(n, ast.For)]
-    rep.check(ys == fors and len(ys) == 1, "R1", f"{ci.file}::CsvDataReader.next yields rows unchanged", f"yields {ys}", K.where(nx, nx.node))
+    # interpreted: the text stream opened on the instance's own path goes to csv.reader with the instance's dialect, and next()
+    # yields csv.reader's rows, each once, in order, unchanged (no layer between the bytes and the parser, none after it)
+    rows = [Obj("row0"), Obj("row1"), Obj("row2")]
+
+    def h_open(i, c, r, a, k):
+        i.record_call("open", (list(a), dict(k)))
+        return Obj("FILE")
+
+    def h_reader(i, c, r, a, k):
+        i.record_call("csv.reader", (list(a), dict(k)))
+        return list(rows)
+
+    it = Interp(idx, types={"self": "CsvDataReader"}, unknown_calls="residual", handlers={"open": h_open, "csv.reader": h_reader, "reader": h_reader})
+    ps = it.run_all(nx, store={})
+    ok1 = ok2 = ok3 = False
+    d1 = d2 = d3 = f"{len(ps)} paths"
+    if len(ps) == 1:
+        p = ps[0]
+        opens = [v for k, kk, v in p.trace if k == "call" and kk == "open"]
+        reads = [v for k, kk, v in p.trace if k == "call" and kk == "csv.reader"]
+        ys = [v for k, kk, v in p.trace if k == "yield"]
+        kw = {k: txt(v) for k, v in reads[0][1].items()} if len(reads) == 1 else {}
+        ok1 = kw == {"delimiter": "self._delimiter", "quotechar": "self._quotechar"}
+        d1 = f"{kw}"
+        opened = [txt(x) for x in (opens[0][0] + list(opens[0][1].values()))][:1] if len(opens) == 1 else None
+        src0 = reads[0][0][0] if len(reads) == 1 and reads[0][0] else None
+        ok2 = src0 == Obj("FILE") and opened == ["self._path"]
+        d2 = f"csv.reader reads `{src0}` (opened `{opened}`): a layer between the file and the parser can alter cell text"
+        ok3 = ys == rows
+        d3 = f"yields {ys} for csv.reader rows {rows}"
+    rep.check(ok1, "R1", f"{ci.file}::CsvDataReader.next csv.reader dialect", d1, K.where(nx, nx.node))
+    rep.check(ok2, "R1", f"{ci.file}::CsvDataReader.next parses the file itself", d2, K.where(nx, nx.node))
+    rep.check(ok3, "R1", f"{ci.file}::CsvDataReader.next yields rows unchanged", d3, K.where(nx, nx.node))
     # CsvPaths.csvpath() hands its dialect to members (shared with C08.R2)
     fc = idx.method("CsvPaths", "csvpath")
     ctor = [n for n in walk_no_nested(fc.node) if isinstance(n, ast.Call) and call_name(n) == "CsvPath"]
